@@ -252,6 +252,10 @@ def make_tables(rng, vendor, n):
     # all-NaN sample position / element column (LDR drops them; elsewhere they stay)
     nanpos = rng.randrange(min(lengths)) if rng.random() < 0.2 else None
     nancol = rng.randrange(k) if (k >= 2 and rng.random() < 0.15) else None
+    # a position that is NaN in every field of ONE line only must stay (n >= 2)
+    nanone = (rng.randrange(n), rng.randrange(min(lengths))) if (n >= 2 and rng.random() < 0.2) else None
+    if nanone is not None:
+        feats.append("nan-position-in-one-line")
     if nanpos is not None:
         feats.append("all-nan-position")
     if nancol is not None:
@@ -288,6 +292,8 @@ def make_tables(rng, vendor, n):
             rows = [[t or "nan" for t in r] for r in rows]
         if nanpos is not None:
             rows[nanpos] = ["nan" if (rng.random() < 0.5 or len(cols) == 1) else "" for _ in cols]
+        if nanone is not None and nanone[0] == li:
+            rows[nanone[1]] = ["nan" if (rng.random() < 0.5 or len(cols) == 1) else "" for _ in cols]
         if vendor == "ldr":  # the dwell-time row and the empty trailing column of the Qtegra layout
             rows.insert(0, [""] + [f"dwell time=0.{rng.randint(1, 9)};xcal factor={rng.randint(1, 99999)}.5" for _ in cols[1:]])
             header.append(""), names.append("f0")
